@@ -505,6 +505,32 @@ Proof.
     constructor; [|assumption]. cbn. eapply w_step_identity; eauto.
 Qed.
 
+Lemma w_run_app w l1 l2 :
+  w_run w (l1 ++ l2) = let (w1, r1) := w_run w l1 in let (w2, r2) := w_run w1 l2 in (w2, r1 ++ r2).
+Proof.
+  revert w. induction l1 as [|inp rest IH]; intros w; cbn [app].
+  - cbn. destruct (w_run w l2). reflexivity.
+  - rewrite !w_run_cons. destruct (w_step w inp) as [[w1 tr1] o]. rewrite IH.
+    destruct (w_run w1 rest) as [w2 r2]. destruct (w_run w2 l2) as [w3 r3]. reflexivity.
+Qed.
+
+(* source_fault_transparent: a call in which the SOURCE raises (anything but the StopIteration
+   of an iterator) reaches the reader as that exception and leaves the wrapper exactly as it
+   was: every other call of the session gives what it would give had the failed call not
+   happened *)
+Theorem source_fault_transparent w l1 e l2 :
+  w_step w (InSrcErr e) = (w, [], OutExn e) /\
+  w_run w (l1 ++ InSrcErr e :: l2) =
+    (let (w1, r1) := w_run w l1 in let (w2, r2) := w_run w1 l2 in
+     (w2, r1 ++ {| sr_in := InSrcErr e; sr_tr := []; sr_out := OutExn e |} :: r2)) /\
+  w_run w (l1 ++ l2) =
+    (let (w1, r1) := w_run w l1 in let (w2, r2) := w_run w1 l2 in (w2, r1 ++ r2)).
+Proof.
+  split; [reflexivity|]. split; [|apply w_run_app].
+  rewrite w_run_app. destruct (w_run w l1) as [w1 r1]. rewrite w_run_cons. cbn [Wrap.w_step].
+  destruct (w_run w1 l2) as [w2 r2]. reflexivity.
+Qed.
+
 (* an inspector in the errored set is never fed *)
 Lemma errored_not_fed w inps w' recs k : w_run w inps = (w', recs) -> err_at w k = true ->
   forall ev, In ev (run_trace recs) -> ev_idx ev <> k.
